@@ -47,7 +47,9 @@ LAZY = ["T", "inv", "sqrt", "eigval", "eigvec", "factor", "lu_and_piv", "capacit
         "T.log_abs_det", "T.diagonal", "T.inv.array", "inv.T.array", "T.capacitance", "inv.capacitance",
         "mul.inv", "mul.log_abs_det", "mul.sqrt", "mul.eigval", "mul.grad_log_abs_det", "mul.grad_quad",
         "mul.inv.log_abs_det", "div.inv", "div.log_abs_det", "neg.inv", "neg.log_abs_det", "neg.eigval",
-        "inv.grad_log_abs_det", "inv.grad_quad", "inv.mul.inv", "T.mul.inv", "sqrt.inv", "sqrt.log_abs_det"]
+        "inv.grad_log_abs_det", "inv.grad_quad", "inv.mul.inv", "T.mul.inv", "sqrt.inv", "sqrt.log_abs_det",
+        # V diag(lambda) V' rebuilt from eigval / eigvec (independent of the order of the eigenpairs)
+        "eigrecon", "inv.eigrecon", "mul.eigrecon", "neg.eigrecon", "inv.inv.eigrecon"]
 # attributes whose evaluation populates a cache that derived objects may be handed
 WARM = ["inv", "log_abs_det", "capacitance", "sqrt", "eigval", "eigvec", "factor", "lu_and_piv", "T", "array",
         "grad_log_abs_det", "grad_quad", "diagonal", "hash", "inv.log_abs_det", "inv.inv", "T.inv"]
@@ -98,6 +100,9 @@ def value_of(M, name, data, s):
             return obj / s
         if a == "neg":
             return -obj
+        if a == "eigrecon":
+            V = np.asarray(obj.eigvec.array, dtype=float)
+            return (V * np.asarray(obj.eigval, dtype=float)) @ V.T
         if a == "grad_log_abs_det":
             return ("flat", _flat(obj.grad_log_abs_det))
         if a == "grad_quad":
@@ -111,7 +116,7 @@ def value_of(M, name, data, s):
 
     if name in ("hash",):
         return ("int", hash(M))
-    if "." in name or name in ("eigval", "diagonal", "log_abs_det", "array", "T", "inv", "sqrt", "eigvec", "factor",
+    if "." in name or name in ("eigval", "diagonal", "log_abs_det", "array", "T", "inv", "sqrt", "eigvec", "factor", "eigrecon",
                                "capacitance"):
         out = chain(M, name)
         if isinstance(out, tuple) and out and isinstance(out[0], str) and out[0] == "flat":
@@ -172,7 +177,7 @@ def _applicable1(M, first):
         return False
     if first == "sqrt" and not c["pd"]:
         return False
-    if first in ("eigval", "eigvec") and not c["sym"]:
+    if first in ("eigval", "eigvec", "eigrecon") and not c["sym"]:
         return False
     if first == "factor" and not hasattr(type(M), "factor"):
         return False
